@@ -62,6 +62,10 @@ CHECKS['C16'] = ('E4', 'model_checking',
     'Bounded-exhaustive enumeration on a fixture tree in a temp dir (secret in the parent, sibling whose name extends the docroot name): every path of 0-3 (quick) / 0-4 (thorough) segments over a 17-segment alphabet (.., ., empty, %2e%2e, %252e%252e, ..%2f, %2e%2e%2f, backslash forms, encoded absolute path, benign names) x mount (none, /, /static, /static glued to the first segment) x dirlisting x three front ends (request bytes through HTTP, request event with Request.path set, WSGI Application + Static); reference = unquote once, normpath, containment; the answer must be 3xx/4xx or exactly the denoted file/index/listing, no marker from outside may appear, and an audit hook sees no open/listdir outside the docroot. Ranges: every header unit{bytes, items, no =} x one or two specs over {empty, 0,1,5,9,10,11,100,x,-1} x file sizes {0,1,10,100}, judged by an RFC 7233 reference (206 exact bytes + Content-Range, 416, or 200; never 5xx, never bytes beyond the file).',
     'Trusted: in-memory model of the fixture; any 3xx/4xx counts as refusal; stat()/exists() outside the root are counted, not judged; symlinks and non-POSIX semantics not covered.',
     'bounded-exhaustive input/configuration enumeration through the real HTTP/dispatcher/WSGI front ends with a reference model', 'DESIGN.md 6/C16')
+CHECKS['C17'] = ('E4', 'model_checking',
+    'A real WebSocketCodec (server and client role, also with initial data handed to the constructor) under a real parent component is fed read events; reference = an independent strict RFC 6455 encoder/decoder in the check (self-tested against the RFC examples). Enumerated exhaustively: payload lengths {0,1,125,126,127,65535,65536,70000} text/binary x four masking keys x every single cut in the first 16 bytes and around the payload end, every pair of cuts in the header region, fixed-size chunkings, byte-at-a-time; every split of a message into 1-3 continuation frames incl. inside a UTF-8 character, with ping/pong (0,5,125 bytes) before/between/after fragments; every sequence of 1-3 items from data messages, fragmented messages, ping, pong, close, local write, local close; outgoing writes of every length decoded by the reference. Judged: type, payload and order of every message, one pong per ping with the same payload, nothing delivered or sent after close, no exception events.',
+    'Trusted: the reference codec; peers are role-conforming; closing-handshake details (reply close frame, its masking) are observed, not judged.',
+    'bounded-exhaustive input/segmentation enumeration against an independent reference codec', 'DESIGN.md 6/C17')
 NOT_YET = {}
 def main():
     props = [json.loads(l) for l in open(os.path.join(HERE, 'properties.jsonl'))]
